@@ -142,7 +142,7 @@ type ReencCase struct {
 	Item int     `json:"item"` // pre-order index of the CBOR item the re-encoding is applied to
 }
 
-var sigKinds = []string{"sig-ecdsa-n-minus-s", "sig-der-long-length", "sig-der-padded-int"}
+var sigKinds = []string{"sig-ecdsa-n-minus-s", "sig-der-long-length", "sig-der-padded-int", "sig-der-trailing-byte"}
 
 func curveN(a keys.Alg) *big.Int {
 	switch a {
@@ -174,6 +174,8 @@ func sigVariant(kind string, alg keys.Alg, sig []byte) ([]byte, bool) {
 		es.S = new(big.Int).Sub(n, es.S)
 		out, err := asn1.Marshal(es)
 		return out, err == nil
+	case "sig-der-trailing-byte":
+		return append(append([]byte{}, sig...), 0x00), true
 	case "sig-der-long-length":
 		if len(sig) < 2 || sig[0] != 0x30 || sig[1] >= 0x80 {
 			return nil, false
@@ -200,7 +202,7 @@ func buildVariant(rc ReencCase, sealed []byte) (variant []byte, ok bool) {
 	case "extra-element":
 		root.Items = append(root.Items, cbor.Uint(0))
 		return root.Bytes(), true
-	case "sig-ecdsa-n-minus-s", "sig-der-long-length", "sig-der-padded-int":
+	case "sig-ecdsa-n-minus-s", "sig-der-long-length", "sig-der-padded-int", "sig-der-trailing-byte":
 		sig, ok := sigVariant(rc.Kind, rc.Tok.Issuer().Alg, root.Items[0].Data)
 		if !ok {
 			return nil, false
@@ -344,7 +346,7 @@ func TestReencodeExhaustive(t *testing.T) {
 		cnt := root.Count()
 		for _, kind := range allKinds {
 			switch kind {
-			case "trailing-byte", "extra-element", "sig-ecdsa-n-minus-s", "sig-der-long-length", "sig-der-padded-int":
+			case "trailing-byte", "extra-element", "sig-ecdsa-n-minus-s", "sig-der-long-length", "sig-der-padded-int", "sig-der-trailing-byte":
 				reencProp.One(t, ReencCase{Tok: d, Kind: kind})
 			default:
 				for i := 0; i < cnt; i++ {
